@@ -165,14 +165,15 @@ type PartSet struct {
 // CONTRACT: partSize is greater than zero.
 func NewPartSetFromData(data []byte, partSize uint32) *PartSet {
 	// divide data into 4kb parts.
-	total := (uint32(len(data)) + partSize - 1) / partSize
+	// The sums and products below exceed 32 bits for part sizes close to 2^32.
+	total := uint32((uint64(len(data)) + uint64(partSize) - 1) / uint64(partSize))
 	parts := make([]*Part, total)
 	partsBytes := make([][]byte, total)
 	partsBitArray := bits.NewBitArray(int(total))
 	for i := uint32(0); i < total; i++ {
 		part := &Part{
 			Index: i,
-			Bytes: data[i*partSize : tmmath.MinInt(len(data), int((i+1)*partSize))],
+			Bytes: data[uint64(i)*uint64(partSize) : tmmath.MinInt64(int64(len(data)), (int64(i)+1)*int64(partSize))],
 		}
 		parts[i] = part
 		partsBytes[i] = part.Bytes
